@@ -266,7 +266,9 @@ func c20GenValue(t *rapid.T) string {
 	// Values are compared as they are: paths, a lone slash, texts that would mean something as a
 	// regular expression, surrounding blanks.
 	return rapid.SampledFrom([]string{"v", "", "a b", "x.y-z", "say \"hi\"", `back\slash`, "é世", "1",
-		"/srv/shop", "/", "//", "/v", "v/", ".*", "a|b", "[x]", "(", "^v$", "{}", " v", "v ", "V", "0x10", "true", "1.0"}).Draw(t, "value")
+		"/srv/shop", "/", "//", "/v", "v/", ".*", "a|b", "[x]", "(", "^v$", "{}", " v", "v ", "V", "0x10", "true", "1.0",
+		// quote characters at the ends and inside
+		"`date`", "echo `date`", "`", "``", "a`b", "\"db\"", "'x'", "\"", "`\""}).Draw(t, "value")
 }
 
 func c20Gen(t *rapid.T) C20Case {
